@@ -31,11 +31,17 @@ MANIFEST = {
 
 STORE_PROPS = ["BannedUntilLapse", "RecordedReason", "NotBannedAfterLapse", "NotBannedAfterUnban",
                "SameRecordEverySpelling", "ReopenPreserves", "EveryFormAccepted"]
-ENF_PROPS = []
+ENF_PROPS = ["NoServicePeerBanned", "MisbehavingPeerBanned", "NoConnectionToBanned", "BannedConnectRefused"]
 PROPS = {"C13": STORE_PROPS + ENF_PROPS}
 
 CODE_VERSION = json.load(open(os.path.join(SPEC, "code_version.json")))
 STORE_SWITCHES = {k: CODE_VERSION[k] for k in ("FixWideMask",)}
+ENF_SWITCHES = {k: CODE_VERSION[k] for k in ("FixBanAllOfHost",)}
+
+ENF_CONFIGS = {
+    "quick": dict(NP=2, NI=2, NJ=2, MaxOps=6),
+    "thorough": dict(NP=3, NI=2, NJ=2, MaxOps=6),
+}
 
 STORE_CONFIGS = {
     "quick": dict(NC=3, Groups="{1,2,3}", MaxShort=0, Long=100, NR=2, MaxT=1),
@@ -61,6 +67,18 @@ ASSUMPTIONS = [
 def label(act):
     op = act.get("op", "?")
     res = str(act.get("res"))
+    if "p" in act:      # enforcement part
+        if op == "Connect":
+            return "Connect(p%d,i%d,j%d)=%s" % (act["p"], act["i"], act["j"], res)
+        if op == "Version":
+            return "Version(p%d,i%d,j%d,f%d)=%s" % (act["p"], act["i"], act["j"], act["f"], res)
+        if op in ("VerAck", "Drop"):
+            return "%s(p%d,i%d,j%d)=%s" % (op, act["p"], act["i"], act["j"], res)
+        if op == "Misbehave":
+            return "Misbehave(i%d,j%d,k%d)=%s" % (act["i"], act["j"], act["k"], res)
+        if op == "Unban":
+            return "Unban(i%d)=%s" % (act["i"], res)
+        return "%s=%s" % (op, res)
     if op == "Ban":
         return "Ban(c%d,g%d,d%d,r%d)=%s" % (act["c"], act["g"], act["d"], act["r"], res)
     if op == "Unban":
@@ -83,6 +101,8 @@ class _Part:
         self.drift = (0, 0, [])
         self.unreach = 0
         self.consts = {}
+        self.driver_wall = 0.0
+        self.judge_wall = 0.0
 
 
 def _paths_from_replay(replay_file, pf):
@@ -95,6 +115,29 @@ def _paths_from_replay(replay_file, pf):
     with open(pf, "w") as f:
         f.write(json.dumps(rec) + "\n")
     return tr.get("part", "store")
+
+
+def _judge(props_mod, names, observed, chunk=1500):
+    """family.judge in chunks.  ObsCheck keeps every violation it has seen in one TLC
+    variable, so a tree on which most traces violate would make a single run quadratic;
+    once enough new violations are in hand to report, the rest is not judged."""
+    out = {"violations": [], "known": {}, "n_lines": 0, "wall": 0.0, "raw": 0, "judged_traces": 0}
+    for k in range(0, len(observed), chunk):
+        part = observed[k:k + chunk]
+        v = family.judge([SPEC], props_mod, names, "C13", part, label=label)
+        out["violations"] += v["violations"]
+        for kid, kv in v["known"].items():
+            if kid in out["known"]:
+                out["known"][kid]["count"] += kv["count"]
+            else:
+                out["known"][kid] = kv
+        out["n_lines"] += v["n_lines"]
+        out["wall"] += v["wall"]
+        out["raw"] += v["raw"]
+        out["judged_traces"] += len(part)
+        if len(out["violations"]) >= 10:
+            break
+    return out
 
 
 def _store_part(name, consts, tier, seed, rng, sc, binary, walks=0, depth=0, max_len=64, env=None):
@@ -117,11 +160,47 @@ def _store_part(name, consts, tier, seed, rng, sc, binary, walks=0, depth=0, max
     core.write_paths(part.g, part.paths, pf)
     e = {"VERIF_SEED": str(seed)}
     e.update(env or {})
+    t1 = time.time()
     part.observed, _ = family.run_driver(binary, "TestVerifBanStoreReplay", pf, os.path.join(wd, "obs.ndjson"),
                                          wd, env_extra=e)
+    part.driver_wall = time.time() - t1
     for t in part.observed:
         t["part"] = name
-    part.verdict = family.judge([SPEC], "BanStoreProps", STORE_PROPS, "C13", part.observed, label=label)
+    t1 = time.time()
+    part.verdict = _judge("BanStoreProps", STORE_PROPS, part.observed)
+    part.judge_wall = time.time() - t1
+    part.drift = family.drift(pf, part.observed, label=label)
+    shutil.rmtree(os.path.join(wd, "tlc"), ignore_errors=True)
+    return part
+
+
+def _enf_part(name, consts, tier, seed, rng, sc, binary, walks=0, depth=0):
+    part = _Part(name)
+    consts = dict(consts)
+    consts.update(ENF_SWITCHES)
+    part.consts = consts
+    wd = os.path.join(sc, name)
+    os.makedirs(wd, exist_ok=True)
+    tlc = core.run_tlc([SPEC], "BanEnforce", consts, workers=1, invariants=["TypeOK"], view="View0",
+                       workdir=os.path.join(wd, "tlc"), timeout=3000)
+    if not tlc.ok:
+        raise core.MachineryError("TLC on BanEnforce failed: %s\n%s" % (tlc.error, tlc.stdout_tail[-3000:]))
+    part.tlc = tlc
+    part.g = core.Graph.load(tlc)
+    part.paths, part.unreach = core.edge_cover(part.g, rng)
+    if walks:
+        part.paths += core.random_walks(part.g, walks, depth, rng)
+    pf = os.path.join(wd, "paths.ndjson")
+    core.write_paths(part.g, part.paths, pf)
+    t1 = time.time()
+    part.observed, _ = family.run_driver(binary, "TestVerifBanEnforceReplay", pf, os.path.join(wd, "obs.ndjson"),
+                                         wd, env_extra={"VERIF_SEED": str(seed), "VERIF_PAR": "64"})
+    part.driver_wall = time.time() - t1
+    for t in part.observed:
+        t["part"] = name
+    t1 = time.time()
+    part.verdict = _judge("BanEnforceProps", ENF_PROPS, part.observed)
+    part.judge_wall = time.time() - t1
     part.drift = family.drift(pf, part.observed, label=label)
     shutil.rmtree(os.path.join(wd, "tlc"), ignore_errors=True)
     return part
@@ -173,7 +252,6 @@ def run(prop_id, tier, seed, replay=None):
     rng = random.Random(seed)
     sc = core.scratch("bs")
     try:
-        store_bin = family.build_overlay_test(PKG_STORE, [DRIVER_STORE], os.path.join(sc, "banman.test"))
         parts = []
         if replay:
             pf = os.path.join(sc, "paths.ndjson")
@@ -181,27 +259,44 @@ def run(prop_id, tier, seed, replay=None):
             part = _Part(which)
             part.tlc = family._NoTLC()
             part.paths = [0]
-            env = {"VERIF_SEED": str(seed)}
-            if which == "store-timed":
-                env["VERIF_SOON"] = "0"
-            part.observed, _ = family.run_driver(store_bin, "TestVerifBanStoreReplay", pf,
-                                                 os.path.join(sc, "obs.ndjson"), sc, env_extra=env)
-            part.verdict = family.judge([SPEC], "BanStoreProps", STORE_PROPS, "C13", part.observed, label=label)
+            env = {"VERIF_SEED": str(seed), "VERIF_SOON": "1" if which == "store" else "0"}
+            if which.startswith("store"):
+                binary = family.build_overlay_test(PKG_STORE, [DRIVER_STORE], os.path.join(sc, "banman.test"))
+                test, props_mod, names = "TestVerifBanStoreReplay", "BanStoreProps", STORE_PROPS
+            else:
+                binary = family.build_overlay_test(PKG_ENF, [DRIVER_ENF], os.path.join(sc, "neutrino.test"))
+                test, props_mod, names = "TestVerifBanEnforceReplay", "BanEnforceProps", ENF_PROPS
+            part.observed, _ = family.run_driver(binary, test, pf, os.path.join(sc, "obs.ndjson"), sc, env_extra=env)
+            for t in part.observed:
+                t["part"] = which
+            part.verdict = _judge(props_mod, names, part.observed)
             part.drift = family.drift(pf, part.observed, label=label)
             parts.append(part)
         else:
             thorough = tier == "thorough"
-            parts.append(_store_part("store", STORE_CONFIGS[tier], tier, seed, rng, sc, store_bin,
-                                     walks=3000 if thorough else 0, depth=40,
-                                     env={"VERIF_SOON": "1" if thorough else "0"}))
+            store_bin = family.build_overlay_test(PKG_STORE, [DRIVER_STORE], os.path.join(sc, "banman.test"))
+            enf_bin = family.build_overlay_test(PKG_ENF, [DRIVER_ENF], os.path.join(sc, "neutrino.test"))
+            # once a part has produced a new violation the verdict is settled; the remaining
+            # parts are skipped (evidence says which ran)
+            plan = [lambda: _store_part("store", STORE_CONFIGS[tier], tier, seed, rng, sc, store_bin,
+                                        walks=3000 if thorough else 0, depth=40,
+                                        env={"VERIF_SOON": "1" if thorough else "0"}),
+                    lambda: _enf_part("enforce", ENF_CONFIGS[tier], tier, seed, rng, sc, enf_bin,
+                                      walks=2000 if thorough else 0, depth=30)]
             if thorough:
-                parts.append(_store_part("store-timed", TIMED_CONFIG, tier, seed, rng, sc, store_bin,
-                                         max_len=24, env={"VERIF_PAR": "48", "VERIF_SOON": "0"}))
+                plan.append(lambda: _store_part("store-timed", TIMED_CONFIG, tier, seed, rng, sc, store_bin,
+                                                max_len=24, env={"VERIF_PAR": "48", "VERIF_SOON": "0"}))
+            for step in plan:
+                parts.append(step())
+                if parts[-1].verdict["violations"]:
+                    break
         tlc, g, paths, observed, verdict, dr = _merge(parts)
         extra = {"parts": {p.name: {"config": p.consts,
                                     "states": p.tlc.distinct if p.tlc else 0,
                                     "edges": len(p.g.edges) if p.g else 0,
                                     "tlc_wall_s": round(p.tlc.wall, 1) if p.tlc else 0,
+                                    "driver_wall_s": round(p.driver_wall, 1),
+                                    "judge_wall_s": round(p.judge_wall, 1),
                                     "replayed_paths": len(p.observed),
                                     "replayed_steps": sum(len(t["steps"]) for t in p.observed),
                                     "paths_rerun_for_timing": sum(1 for t in p.observed if t.get("retries")),
